@@ -154,6 +154,8 @@ type subjectRun struct {
 	during    int       // blocks that arrived while a refused flush was in flight
 	waited    int       // AddBlocks that waited at the persist back-pressure and were released by a harness flush
 	notWaited int       // … that went through without waiting
+	// hdrDuringGC: 1 = headers were delivered between two passes of a GC cycle, -1 = planned but the cycle never came
+	hdrDuringGC int
 }
 
 // batchMeta: what the harness knows about the moment batch i was committed.
@@ -496,6 +498,9 @@ func checkPrefix(c *caseOut, h *History, cfg config.Blockchain, nb int, accepted
 			c.fail(tag+"header-hash", "prefix %d: current header hash at %d is not the canonical one", k, want)
 		}
 		for _, i := range []uint32{0, want / 2, want} {
+			if cfg.RemoveUntraceableBlocks && i+h.MTB <= want {
+				continue // untraceable: its header-hash page may have been collected (GetHeaderHash gives zero then)
+			}
 			if i <= h.N() && bc.GetHeaderHash(i) != h.hashOf(i) {
 				c.fail(tag+"header-hash-list", "prefix %d: GetHeaderHash(%d) is not the canonical hash (header height %d)", k, i, want)
 			}
